@@ -415,10 +415,12 @@ def configs(tier):
                     orders += ["i", "fi"]
                     if tier != "quick":
                         orders.append("if")
+                if K == 3 and kind != "linear":
+                    orders = [o for o in orders if o in ("f", "fi")]  # bug hunting only (see common._run_job): two orders, short caps
                 for order in orders:
                     if tier == "quick" and kind == "quadratic" and K == 2 and mode == "box" and order == "fi":
                         continue  # undecided within the quick caps; thorough tier only
-                    cfgs.append({"type": "spline", "kind": kind, "K": K, "mode": mode, "box": box, "order": order, "timeout": t if K < 3 else 300, "decide_timeout": 8 if tier == "quick" else 30, "bughunt": K == 3 and kind != "linear"})
+                    cfgs.append({"type": "spline", "kind": kind, "K": K, "mode": mode, "box": box, "order": order, "timeout": t if (K < 3 or kind == "linear") else 120, "decide_timeout": 8 if (tier == "quick" or (K == 3 and kind != "linear")) else 30, "bughunt": K == 3 and kind != "linear"})
     for order in ("f", "i", "fi"):
         cfgs.append({"type": "spline", "kind": "rq", "K": 2, "mode": "box", "box": "unit", "floors": True, "order": order, "timeout": t, "decide_timeout": 8})
     for c in CS.cases_for(tier, with_history=True):
